@@ -20,6 +20,7 @@ def handle (j : Json) : Json :=
     match lookup Generated.registry op with
     | .ok d => Json.mkObj [("model", Json.mkObj [("status", "ok"), ("str", d.str)])]
     | .error e => Json.mkObj [("model", errJson e)]
+  | "graph" => runGraph j
   | "decode" => Json.mkObj [("model", runDecode j)]
   | "validate" =>
     let a := runValidate j
